@@ -6,12 +6,12 @@ import time
 from . import common as C
 
 ALL_LISTS = ["P1", "P2", "P3", "P4", "P5", "P6", "P7", "P8", "P9", "P10", "P11", "F1", "F2", "F3", "F4", "F5", "F6", "F7", "F8", "F9", "F10", "V1", "V2", "V3", "V4", "V5", "V6", "V7",
-             "V8", "V9", "V10", "V11", "V12", "V13", "V14", "M1", "M2", "M3", "M4"]
+             "V8", "V9", "V10", "V11", "V12", "V13", "V14", "V15", "M1", "M2", "M3", "M4"]
 TRACKED = ["P3", "P4", "P5", "P8", "F3", "F4", "F5", "F6", "F9", "V3", "V4", "V7", "V9", "V10", "V12", "M2", "M3"]
 # lists of trivial value types for the "never clobbered alive" clause of C06 (observable through the values only)
 C06_TRIVIAL = ["P1", "F1", "V1", "V2", "V5", "M1"]
-ALIGNED = ["P2", "P6", "P10", "F2", "F7", "F10", "V1", "V3", "V5", "V6", "V7", "V8", "V9", "V13", "M1", "M4"]
-VARYING = ["V1", "V2", "V3", "V4", "V5", "V6", "V7", "V8", "V9", "V13", "V14", "M1", "M2", "M3", "M4"]
+ALIGNED = ["P2", "P6", "P10", "F2", "F7", "F10", "V1", "V3", "V5", "V6", "V7", "V8", "V9", "V13", "V15", "M1", "M4"]
+VARYING = ["V1", "V2", "V3", "V4", "V5", "V6", "V7", "V8", "V9", "V13", "V14", "V15", "M1", "M2", "M3", "M4"]
 TRAIT_KINDS = ["T000", "T001", "T010", "T011", "T100", "T101", "T110", "T111"]
 
 
@@ -29,6 +29,22 @@ def big_runs(lists, tier, mode="hist", depth=5, **kw):
 def wide_runs(lists, tier, mode="hist", depth=4, nmax=17, alloc="AE", **kw):
     """vectors of 16 and 17 elements (macro operation fill), erase at selected positions, span lengths 0..2"""
     return [R(l, alloc, mode, nmax=nmax, cmax=2, bmax=40, depth=depth, junk=1, wide=1, fixed="2", **kw) for l in lists]
+
+
+def long_run_proxy_runs(tier):
+    """reference assignment / swap / permuting algorithms over elements whose trivially copyable runs are longer than
+    256 bytes (and not a multiple of 256), in vectors filled exactly to their capacity and payload budget"""
+    q = tier == "quick"
+    runs = [R("F1", "AE", "proxy", nmax=2, cmax=1, bmax=2, depth=2, junk=1, fixed="127"),
+            R("F2", "AE", "proxy", nmax=2, cmax=1, bmax=2, depth=2, junk=1, fixed="100"),
+            R("V1", "AE", "proxy", nmax=2, cmax=1, bmax=2, depth=2, junk=1, cscale=70),
+            R("M1", "AE", "proxy", nmax=2, cmax=1, bmax=2, depth=2, junk=1, fixed="100", cscale=70)]
+    if not q:
+        runs += [R("F5", "AE", "proxy", nmax=3, cmax=1, bmax=3, depth=3, junk=1, fixed="127"),
+                 R("V2", "AE", "proxy", nmax=3, cmax=1, bmax=3, depth=3, junk=1, cscale=127),
+                 R("V5", "AE", "proxy", nmax=2, cmax=1, bmax=2, depth=2, junk=1, cscale=40),
+                 R("F10", "AE", "proxy", nmax=2, cmax=1, bmax=2, depth=2, junk=1, fixed="9")]
+    return runs
 
 
 def hist_runs(lists, tier, allocs=("AE",), mode="hist", **kw):
@@ -102,14 +118,20 @@ def spec(prop, tier):
             if prop == "C04":
                 # fixed sizes / span counts after copy, move, swap between vectors with different fixed sizes; elements
                 runs += pair_runs(["F1", "F3", "F5", "M1", "M2"], ["AE", "NP"], tier, 4) + elem_runs(["F3", "M2", "V3"], ["AE"], tier, 2)
+                # elements of equal byte size but different span lengths (two spans, or padding behind a span)
+                runs += elem_runs(["V5", "V14", "V15"], ["AE"], tier, 3)
             if prop == "C02":
                 # copy / move / assignment between vectors whose blocks differ in size (budgets, fixed sizes, arenas)
                 runs += pair_runs(["F1", "F3", "V1", "V3", "M1", "M2"], ["NP", "PP"], tier, 4)
+                # reference assignment and swap over long elements in exactly filled vectors
+                runs += long_run_proxy_runs(tier)
             if prop == "C03":
                 runs += elem_runs(["V5", "M1"], ["AE"], tier, 3)
             return runs
         runs = hist_runs(lists, tier, allocs=("AE",), nmax=4, cmax=3, bmax=6, depth=5)
         runs += wide_runs(lists, tier, depth=5)
+        if prop == "C02":
+            runs += long_run_proxy_runs(tier)
         runs += pair_runs(lists, ["NP"], tier, 4)
         runs += elem_runs(lists, ["NP"], tier, 3)
         return runs
@@ -159,6 +181,7 @@ def spec(prop, tier):
         for fixed in ("6", "14", "30") + (() if q else ("7", "15", "31", "62")):
             for l in ("F1", "F3", "F5"):
                 runs.append(R(l, "AE", "proxy", nmax=2, cmax=1, bmax=4, depth=2 if q else 3, junk=1, fixed=fixed))
+        runs += long_run_proxy_runs(tier)
         # iterator objects that outlive structural changes of their vector (erase, reserve, copy/move assignment from a
         # vector with other fixed sizes, swap) and are assigned a new position afterwards
         runs += pair_runs(["F1", "F3", "V1", "V3", "M2"] if q else ["P1", "F1", "F3", "F5", "V1", "V3", "V5", "M1", "M2"], ["AE", "NP"], tier,
@@ -171,7 +194,7 @@ def spec(prop, tier):
                 [r for r in elem_runs(["F3", "V1", "V3"], ["NP"], tier, 4) if r["arena1"] == 1] + \
                 [r for r in elem_runs(["F3", "V1", "V3"], ["NP"], tier, 3) if r["arena1"] == 0] + \
                 elem_runs(["F1", "F4", "V5", "M1", "M2", "M3"], ["AE", "NP"], tier, 3) + \
-                elem_runs(["V1", "V3", "F3"], ["PP", "T100"], tier, 3)
+                elem_runs(["V1", "V3", "F3"], ["PP", "T100"], tier, 3) + elem_runs(["V14", "V15"], ["AE"], tier, 3)
         return elem_runs(["F1", "F3", "F4", "V1", "V3", "V5", "M2", "M3"], ["AE", "NP", "PP", "T100", "T010"], tier, 4)
     if prop == "C17":
         lists = ["F1", "F3", "V1", "V3"] if q else ["F1", "F3", "F4", "V1", "V3", "V5", "M2", "M3"]
